@@ -74,15 +74,324 @@ theorem Doc.lex {t : Str} {k : List Tok} (h : Doc t k) : lexToks t = some k := b
   rw [h1, ← h4]; exact lex_doc_all ps h2 h3
 
 /-- concatenation of a list of documents that end in separators -/
-theorem DocS.flatten : ∀ (ts : List Str) (ks : List (List Tok)), ts.length = ks.length →
-    (∀ i (h1 : i < ts.length) (h2 : i < ks.length), DocS ts[i] ks[i]) → DocS ts.flatten ks.flatten
-  | [], [], _, _ => by simpa using DocS.nil
-  | t :: ts, k :: ks, hl, h => by
-    have h0 := h 0 (by simp) (by simp)
-    have hrest := DocS.flatten ts ks (by simpa using hl)
-      (fun i h1 h2 => by simpa using h (i + 1) (by simp; omega) (by simp; omega))
+theorem DocS.flatten : ∀ (xs : List (Str × List Tok)), (∀ x ∈ xs, DocS x.1 x.2) →
+    DocS (xs.map (·.1)).flatten (xs.map (·.2)).flatten
+  | [], _ => by simpa using DocS.nil
+  | x :: xs, h => by
+    have h0 := h x (by simp)
+    have hrest := DocS.flatten xs (fun y hy => h y (by simp [hy]))
     simpa using DocS.append h0 hrest
-  | [], _ :: _, hl, _ => by simp at hl
-  | _ :: _, [], hl, _ => by simp at hl
+
+/-! ### `= value ;` as written by CIMProperty.tomof -/
+
+def assignOpen (isList sp : Bool) : Str := kSpEq ++ (if isList then kSpBraceOpen else []) ++ (if sp then [32] else [])
+def assignClose (isList : Bool) : Str := (if isList then kSpBrace else []) ++ kSemiNl
+
+def assignToks (isList : Bool) (toks : List Tok) : List Tok :=
+  [Tok.p 61] ++ (if isList then [Tok.p 123] else []) ++ toks ++ (if isList then [Tok.p 125] else []) ++ [Tok.p 59]
+
+theorem assign_seps (isList sp : Bool) : (assignOpen isList sp).all isSepPlain = true ∧ assignOpen isList sp ≠ [] ∧
+    (assignClose isList).all isSepPlain = true ∧ assignClose isList ≠ [] ∧
+    punctToks (assignOpen isList sp) = [Tok.p 61] ++ (if isList then [Tok.p 123] else []) ∧
+    punctToks (assignClose isList) = (if isList then [Tok.p 125] else []) ++ [Tok.p 59] := by
+  cases isList <;> cases sp <;> decide
+
+/-- the value part of a property: `head = value;` where `head` is already a document ending in ... a word -/
+theorem assign_doc (c : Codec) (L : CodecLaws c) (ty : CimType) (v : Value c) (hv : ValueOk c L ty v)
+    (indent maxline : Nat) (hm : indent + 8 ≤ maxline) (lp : Int) (r : Str × Int)
+    (hr : valueToMof c ty v indent maxline lp 1 true = .ok r) (hd : List Piece)
+    (hpre : ∀ p ∈ hd, p.Ok) (hwf : WF hd) :
+    ∃ toks, ValueToks c v toks ∧
+      DocS (docText hd ++ kSpEq ++ (if Value.isList v then kSpBraceOpen else []) ++
+            (if r.1 ≠ [] ∧ r.1.head? ≠ some 10 then [32] else []) ++ r.1 ++
+            (if Value.isList v then kSpBrace else []) ++ kSemiNl)
+          (docToks hd ++ assignToks (Value.isList v) toks) := by
+  obtain ⟨toks, hvt, hlex⟩ := value_lex c L ty v hv indent maxline hm lp 1 true r.1 r.2 hr
+  refine ⟨toks, hvt, ?_⟩
+  obtain ⟨s1, s2, s3, s4, s5, s6⟩ := assign_seps (Value.isList v) (decide (r.1 ≠ [] ∧ r.1.head? ≠ some 10))
+  let ps : List Piece := hd ++ [.sep (assignOpen (Value.isList v) (decide (r.1 ≠ [] ∧ r.1.head? ≠ some 10))),
+    .val r.1 toks]
+  have hps : ∀ p ∈ ps, p.Ok := by
+    intro p hp
+    simp only [ps, List.mem_append, List.mem_cons, List.mem_nil_iff, or_false] at hp
+    rcases hp with hp | hp | hp
+    · exact hpre p hp
+    · subst hp; exact s1
+    · subst hp; exact hlex
+  have hwf2 : WF (ps ++ [.sep (assignClose (Value.isList v))]) := by
+    have h1 : WF ([Piece.sep (assignOpen (Value.isList v) (decide (r.1 ≠ [] ∧ r.1.head? ≠ some 10))), .val r.1 toks,
+        .sep (assignClose (Value.isList v))]) := ⟨.inl trivial, .inr s4, trivial⟩
+    have := WF_append_gap hd _ hwf h1 s2
+    simpa [ps, List.append_assoc] using this
+  have := DocS.ofPieces ps (assignClose (Value.isList v)) hps s3 hwf2
+  have ht : docText ps ++ assignClose (Value.isList v) =
+      docText hd ++ kSpEq ++ (if Value.isList v then kSpBraceOpen else []) ++
+        (if r.1 ≠ [] ∧ r.1.head? ≠ some 10 then [32] else []) ++ r.1 ++
+        (if Value.isList v then kSpBrace else []) ++ kSemiNl := by
+    by_cases hsp : r.1 ≠ [] ∧ r.1.head? ≠ some 10 <;>
+      simp [ps, docText, Piece.text, assignOpen, assignClose, hsp]
+  have hk : docToks ps ++ punctToks (assignClose (Value.isList v)) =
+      docToks hd ++ assignToks (Value.isList v) toks := by
+    have h0 : docToks ps = docToks hd ++
+        (punctToks (assignOpen (Value.isList v) (decide (r.1 ≠ [] ∧ r.1.head? ≠ some 10))) ++ toks) := by
+      simp only [ps, docToks, List.map_append, List.map_cons, List.map_nil, List.flatten_append, List.flatten_cons,
+        List.flatten_nil, Piece.toks, List.append_nil, List.append_assoc]
+    rw [h0, s5, s6]
+    simp [assignToks]
+  rw [ht, hk] at this
+  exact this
+
+/-- reading `= value ;` back: the raw initializer and what follows the semicolon -/
+theorem parseInit_assign (c : Codec) (v : Value c) (toks : List Tok) (ht : ValueToks c v toks) (rest : List Tok) :
+    parseInit ((if Value.isList v then [Tok.p 123] else []) ++ toks ++ (if Value.isList v then [Tok.p 125] else []) ++
+        Tok.p 59 :: rest) =
+      some ((match v with | .scalar s => .inl (rawOf c s) | .array xs => .inr (xs.map (rawOf c))), Tok.p 59 :: rest) := by
+  cases v with
+  | scalar s =>
+    have := parseInit_scalar c s toks (Tok.p 59 :: rest) ht trivial
+    simpa [Value.isList] using this
+  | array xs =>
+    obtain ⟨tokss, hall, e⟩ := ht
+    subst e
+    have := parseInit_array c xs tokss (Tok.p 59 :: rest) hall
+    simpa [Value.isList] using this
+
+theorem punctToks_indent (n : Nat) : punctToks (indentStr n) = [] := by
+  induction n with
+  | zero => rfl
+  | succ n ih => simp only [indentStr, List.replicate_succ] at ih ⊢; simp [punctToks, isPunct, ih]
+
+/-! ### instance properties -/
+
+/-- an instance property that MOF can express against the class `cls`: it is a property of the class with the
+    class's spelling, type and array shape (the compiler copies those from the class), carries no qualifiers,
+    its value fits the type; embedded instance / embedded object values are excluded (not modelled) -/
+structure InstPropOk (c : Codec) (L : CodecLaws c) (cls : Class c) (p : Property c) : Prop where
+  nameWord : IsWord p.name
+  nameId : identOf p.name = some p.name
+  cprop : ∃ cp, findProp cls p.name = some cp ∧ cp.name = p.name ∧ cp.ty = p.ty ∧ cp.refClass = p.refClass ∧
+    cp.isArray = p.isArray ∧ cp.arraySize = p.arraySize ∧
+    (p.value.isSome = true → hasQual cp "embeddedinstance" = false ∧ hasQual cp "embeddedobject" = false)
+  noQuals : p.quals = []
+  valueOk : ∀ v, p.value = some v → ValueOk c L p.ty v ∧ Value.isList v = p.isArray ∧ v ≠ .scalar .null
+
+def effValue {c : Codec} (p : Property c) : Value c := p.value.getD (.scalar .null)
+
+def instPropToks {c : Codec} (p : Property c) (toks : List Tok) : List Tok :=
+  Tok.id p.name :: assignToks (Value.isList (effValue p)) toks
+
+theorem effValue_ok (c : Codec) (L : CodecLaws c) (p : Property c)
+    (h : ∀ v, p.value = some v → ValueOk c L p.ty v ∧ Value.isList v = p.isArray ∧ v ≠ .scalar .null) :
+    ValueOk c L p.ty (effValue p) := by
+  unfold effValue
+  cases hv : p.value with
+  | none => exact trivial
+  | some v => exact (h v hv).1
+
+theorem instProp_doc (c : Codec) (L : CodecLaws c) (p : Property c) (hw : IsWord p.name)
+    (hv : ∀ v, p.value = some v → ValueOk c L p.ty v ∧ Value.isList v = p.isArray ∧ v ≠ .scalar .null)
+    (indent maxline : Nat) (hm : indent + Generated.mofIndent + 8 ≤ maxline) (t : Str)
+    (hr : propertyTomof c p true indent maxline = .ok t) :
+    ∃ toks, ValueToks c (effValue p) toks ∧ DocS t (instPropToks p toks) := by
+  simp only [propertyTomof, if_true, Bool.or_true] at hr
+  generalize hvm : valueToMof c p.ty (p.value.getD (.scalar .null)) (indent + Generated.mofIndent) maxline _ 1 true = res at hr
+  cases res with
+  | error e => simp at hr
+  | ok r =>
+    simp only [Except.ok.injEq] at hr
+    have hs : (indentStr indent).all isSepPlain = true := indent_sep indent
+    obtain ⟨toks, hvt, hdoc⟩ := assign_doc c L p.ty (effValue p) (effValue_ok c L p hv) (indent + Generated.mofIndent)
+      maxline hm _ r hvm [.sep (indentStr indent), .word p.name]
+      (by intro q hq; simp at hq; rcases hq with hq | hq <;> subst hq; exact hs; exact hw)
+      ⟨.inl trivial, trivial⟩
+    refine ⟨toks, hvt, ?_⟩
+    have ht : docText [Piece.sep (indentStr indent), .word p.name] = indentStr indent ++ p.name := by
+      simp [docText, Piece.text]
+    have hk : docToks [Piece.sep (indentStr indent), .word p.name] = [Tok.id p.name] := by
+      simp [docToks, Piece.toks, punctToks_indent]
+    rw [ht, hk] at hdoc
+    rw [← hr]
+    simp only [instPropToks, effValue, List.append_assoc, List.cons_append, List.nil_append] at hdoc ⊢
+    exact hdoc
+
+theorem parseInstProp_toks (c : Codec) (L : CodecLaws c) (cls : Class c) (p : Property c)
+    (hok : InstPropOk c L cls p) (toks : List Tok) (ht : ValueToks c (effValue p) toks) (rest : List Tok) :
+    parseInstProp c cls (instPropToks p toks ++ rest) = some (p, rest) := by
+  obtain ⟨cp, hfind, h1, h2, h3, h4, h5, hemb⟩ := hok.cprop
+  have hpi := parseInit_assign c (effValue p) toks ht rest
+  have hq := hok.noQuals
+  simp only [instPropToks, assignToks, List.cons_append, List.nil_append, List.append_assoc] at hpi ⊢
+  simp only [parseInstProp, hok.nameId, hfind]
+  obtain ⟨name, ty, rc, isArray, size, value, quals⟩ := p
+  obtain ⟨cname, cty, crc, cisArray, csize, cvalue, cquals⟩ := cp
+  simp only at h1 h2 h3 h4 h5 hq hemb hpi ⊢
+  subst h1; subst h2; subst h3; subst h4; subst h5; subst hq
+  cases value with
+  | none =>
+    simp only [effValue, Option.getD_none, Value.isList, Bool.false_eq_true, if_false, List.nil_append, rawOf] at hpi ⊢
+    simp only [hpi]
+  | some v =>
+    obtain ⟨hv1, hv2, hv3⟩ := hok.valueOk v rfl
+    simp only at hv1 hv2 hv3
+    obtain ⟨he1, he2⟩ := hemb rfl
+    simp only [effValue, Option.getD_some] at hpi ⊢
+    rw [hpi]
+    cases v with
+    | scalar s =>
+      have hne : rawOf c s ≠ .null := fun e => hv3 (by rw [rawOf_null c s e])
+      have hty := typeRaw_scalar c L cty s hv1
+      simp only [Value.isList] at hv2
+      subst hv2
+      cases hraw : rawOf c s with
+      | null => exact absurd hraw hne
+      | bool b => rw [hraw] at hty; simp [hraw, he1, he2, typeInit, hty]
+      | int b => rw [hraw] at hty; simp [hraw, he1, he2, typeInit, hty]
+      | float b => rw [hraw] at hty; simp [hraw, he1, he2, typeInit, hty]
+      | str b => rw [hraw] at hty; simp [hraw, he1, he2, typeInit, hty]
+      | chr b => rw [hraw] at hty; simp [hraw, he1, he2, typeInit, hty]
+    | array xs =>
+      simp only [Value.isList] at hv2
+      subst hv2
+      simp [he1, he2, typeInit, typeRaws_scalars c L cty xs hv1]
+
+theorem instPropToks_head {c : Codec} (p : Property c) (toks rest : List Tok) :
+    ∃ r, instPropToks p toks ++ rest = Tok.id p.name :: r := ⟨_, rfl⟩
+
+inductive PAll (c : Codec) : List (Property c) → List (List Tok) → Prop where
+  | nil : PAll c [] []
+  | cons {p ps t ts} : ValueToks c (effValue p) t → PAll c ps ts → PAll c (p :: ps) (t :: ts)
+
+def instPropsToks {c : Codec} : List (Property c) → List (List Tok) → List Tok
+  | p :: ps, t :: ts => instPropToks p t ++ instPropsToks ps ts
+  | _, _ => []
+
+theorem instProps_doc (c : Codec) (L : CodecLaws c) (indent maxline : Nat)
+    (hm : indent + Generated.mofIndent + 8 ≤ maxline) :
+    ∀ (ps : List (Property c)) (ts : List Str),
+      (∀ p ∈ ps, IsWord p.name ∧ ∀ v, p.value = some v → ValueOk c L p.ty v ∧ Value.isList v = p.isArray ∧ v ≠ .scalar .null) →
+      mapTomof (fun p => propertyTomof c p true indent maxline) ps = .ok ts →
+      ∃ tokss, PAll c ps tokss ∧ DocS ts.flatten (instPropsToks ps tokss) := by
+  intro ps
+  induction ps with
+  | nil =>
+    intro ts _ hr
+    simp only [mapTomof, Except.ok.injEq] at hr
+    subst hr
+    exact ⟨[], .nil, by simpa [instPropsToks] using DocS.nil⟩
+  | cons p ps ih =>
+    intro ts hok hr
+    simp only [mapTomof] at hr
+    cases hp : propertyTomof c p true indent maxline with
+    | error e => simp [hp] at hr
+    | ok t =>
+      simp only [hp] at hr
+      cases hrest : mapTomof (fun p => propertyTomof c p true indent maxline) ps with
+      | error e => simp [hrest, Except.map] at hr
+      | ok ts' =>
+        simp only [hrest, Except.map, Except.ok.injEq] at hr
+        obtain ⟨hw, hv⟩ := hok p (by simp)
+        obtain ⟨toks, hvt, hdoc⟩ := instProp_doc c L p hw hv indent maxline hm t hp
+        obtain ⟨tokss, hall, hdocs⟩ := ih ts' (fun x hx => hok x (by simp [hx])) hrest
+        refine ⟨toks :: tokss, .cons hvt hall, ?_⟩
+        rw [← hr]
+        simpa [instPropsToks] using DocS.append hdoc hdocs
+
+theorem parseInstPropsF_toks (c : Codec) (L : CodecLaws c) (cls : Class c) :
+    ∀ (ps : List (Property c)) (tokss : List (List Tok)), (∀ p ∈ ps, InstPropOk c L cls p) → PAll c ps tokss →
+      ∀ (rest : List Tok) f, ps.length + 1 ≤ f →
+      parseInstPropsF c cls f (instPropsToks ps tokss ++ Tok.p 125 :: rest) = some (ps, rest) := by
+  intro ps
+  induction ps with
+  | nil =>
+    intro tokss _ hall rest f hf
+    cases hall
+    match f, hf with
+    | f + 1, _ => simp [instPropsToks, parseInstPropsF]
+  | cons p ps ih =>
+    intro tokss hok hall rest f hf
+    cases hall with
+    | cons hp hrest =>
+      rename_i t ts
+      match f, hf with
+      | f + 1, hf =>
+        simp only [List.length_cons] at hf
+        have hpp := parseInstProp_toks c L cls p (hok p (by simp)) t hp (instPropsToks ps ts ++ Tok.p 125 :: rest)
+        have hrec := ih ts (fun x hx => hok x (by simp [hx])) hrest rest f (by omega)
+        simp only [instPropsToks, List.append_assoc] at hpp ⊢
+        simp only [instPropToks, List.cons_append] at hpp ⊢
+        simp only [parseInstPropsF, hpp, hrec]
+        simp
+
+/-! ### the instance declaration -/
+
+def kwInstance : Str := [105, 110, 115, 116, 97, 110, 99, 101]
+def kwOf : Str := [111, 102]
+
+/-- an instance that MOF can express against its class -/
+structure InstanceOk (c : Codec) (L : CodecLaws c) (cls : Class c) (inst : Instance c) : Prop where
+  cnWord : IsWord inst.className
+  cnId : identOf inst.className = some inst.className
+  props : ∀ p ∈ inst.props, InstPropOk c L cls p
+  nodup : (inst.props.map (fun p => p.name.map asciiLower)).Nodup
+
+theorem instance_roundtrip (c : Codec) (L : CodecLaws c) (cls : Class c) (inst : Instance c)
+    (hok : InstanceOk c L cls inst) (maxline : Nat)
+    (hm : Generated.mofIndent + Generated.mofIndent + 8 ≤ maxline) (text : Str)
+    (hr : instanceTomof c inst maxline = .ok text) : readInstance c cls text = some inst := by
+  unfold instanceTomof at hr
+  cases hp : mapTomof (fun p => propertyTomof c p true Generated.mofIndent maxline) inst.props with
+  | error e => simp [hp] at hr
+  | ok pts =>
+    simp only [hp, Except.ok.injEq] at hr
+    obtain ⟨tokss, hall, hdocs⟩ := instProps_doc c L Generated.mofIndent maxline hm inst.props pts
+      (fun p hpm => ⟨(hok.props p hpm).nameWord, (hok.props p hpm).valueOk⟩) hp
+    -- header
+    have hhead : DocS (kInstanceOfSp ++ inst.className ++ kSpBraceNl)
+        [Tok.id kwInstance, Tok.id kwOf, Tok.id inst.className, Tok.p 123] := by
+      have := DocS.ofPieces [.word kwInstance, .sep [32], .word kwOf, .sep [32], .word inst.className] kSpBraceNl
+        (by
+          intro p hpm
+          simp only [List.mem_cons, List.mem_nil_iff, or_false] at hpm
+          rcases hpm with h | h | h | h | h <;> subst h
+          · exact isWord_of_B _ (by decide)
+          · show ([32] : Str).all isSepPlain = true; decide
+          · exact isWord_of_B _ (by decide)
+          · show ([32] : Str).all isSepPlain = true; decide
+          · exact hok.cnWord)
+        (by decide)
+        ⟨.inr (by show ([32] : Str) ≠ []; decide), .inl trivial, .inr (by show ([32] : Str) ≠ []; decide), .inl trivial,
+          .inr (by show kSpBraceNl ≠ []; decide), trivial⟩
+      have e1 : punctToks [32] = [] := by decide
+      have e2 : punctToks kSpBraceNl = [Tok.p 123] := by decide
+      have e3 : kInstanceOfSp = kwInstance ++ [32] ++ kwOf ++ [32] := by decide
+      simpa [docText, docToks, Piece.text, Piece.toks, e1, e2, e3] using this
+    have htail : DocS kCloseBraceSemiNl [Tok.p 125, Tok.p 59] := by
+      have := DocS.sep kCloseBraceSemiNl (by decide)
+      have e : punctToks kCloseBraceSemiNl = [Tok.p 125, Tok.p 59] := by decide
+      rwa [e] at this
+    have hdoc := (DocS.append (DocS.append hhead hdocs) htail).toDoc
+    have hlex := hdoc.lex
+    rw [hr] at hlex
+    have hkw : (isKw kwInstance "instance" && isKw kwOf "of") = true := by decide
+    have hlen : inst.props.length + 1 ≤ (instPropsToks inst.props tokss ++ [Tok.p 125, Tok.p 59]).length + 1 := by
+      have : ∀ (ps : List (Property c)) (ts : List (List Tok)), PAll c ps ts → ps.length ≤ (instPropsToks ps ts).length := by
+        intro ps
+        induction ps with
+        | nil => intro ts _; simp
+        | cons q r ih =>
+          intro ts h
+          cases h with
+          | cons hq hrest =>
+            have := ih _ hrest
+            simp only [instPropsToks, instPropToks, List.length_append, List.length_cons] at this ⊢
+            omega
+      have := this inst.props tokss hall
+      simp only [List.length_append, List.length_cons, List.length_nil]
+      omega
+    have hparse := parseInstPropsF_toks c L cls inst.props tokss hok.props hall [Tok.p 59] _ hlen
+    simp only [readInstance, hlex, List.cons_append, List.nil_append, List.append_assoc, parseInstance, hkw,
+      Bool.not_true, Bool.false_eq_true, if_false, hok.cnId]
+    rw [hparse]
+    simp [hok.nodup]
 
 end Pywbem.Lemmas.MofInst
